@@ -140,6 +140,16 @@ CLAIMS = {
          "fixtures; each is decoded with protojson, printed as the model's input with the oracle answers (url.Parse, redis.ParseURL, net.ParseIP), loaded with LocalConfigFile.Validate under "
          "recover(); the class (accepted / error / panic) and, when accepted, the whole resulting configuration are compared with the model's result in Coq; a panic or an accepted-but-unresolved "
          'configuration is a violation regardless of the model.'},
+    'C19': {'note': 'Trusted: Coq kernel+vm_compute; hand-written controller model; the verif-tagged constructor hook; controller-runtime fake client; Go harness. Gallina axioms: none.',
+ 'technique': 'Coq proof: the controller model (start-up map + Reconcile) yields, for ALL event histories, cluster states and configurations, exactly the per-filter reference (induction over the '
+              'history; exactness of the start-up map by induction over the filter list); cross-namespace refusal; correspondence: random configurations and event histories against the real '
+              "SecretController over controller-runtime's fake client",
+ 'text': "Machine-checked: C19_tracks_reference (every filter's effective secret after every event of every history equals the independent per-filter reference: last delivered non-empty value of the "
+         'not-being-deleted Secret it referenced at start-up, same namespace; otherwise unchanged), C19_unreferenced_untouched, C19_cross_ns_refused. Tie to the code on every run: 600 random '
+         'configurations (1-4 OIDC filters, literal / absent secrets and references to shared, distinct or empty-named Secrets in the empty, own or a foreign namespace) with histories of 4-25 events '
+         "(create, update, delete, being-deleted via finalizer, key-less, empty value, foreign namespace, unrelated names, resyncs) applied to controller-runtime's fake client and followed by the "
+         "real Reconcile; after every event each filter's GetClientSecret() is compared with the controller model and with the reference in Coq; for every tenth configuration the Authorization "
+         'header of a real authorization-code exchange is checked to carry the current value.'},
     "C07": {
         "technique": "Coq proof (induction over rule/pattern lists and strings) of the trigger decision = documented function of the path component, for all rule sets, targets and regex engines; correspondence: exhaustive small-alphabet targets x rule sets through ExtAuthZFilter.Check, evaluated against model and an independent monitor by coqc vm_compute",
         "text": "Machine-checked theorems (C07_trigger_spec, C07_query_irrelevant, C07_path_split; closed under the global context) over a model of GetPathQueryFragment/stringMatch/matchTriggerRule/mustTriggerCheck, for ALL rule sets and ALL byte strings. The model is tied to the code on every run by running ExtAuthZFilter.Check of the current tree on every target over {/,a,b,.,?,#} up to length 5 (6 in thorough) for dozens of rule sets (all four match kinds, regex from a sub-grammar) and comparing with the model and with an independently written boolean spec inside Coq.",
